@@ -1,6 +1,7 @@
 package props
 
 import (
+	"math"
 	"bytes"
 	"encoding/base64"
 	"encoding/json"
@@ -63,6 +64,7 @@ type plainWriter struct{ b []byte }
 func (w *plainWriter) Write(p []byte) (int, error) { w.b = append(w.b, p...); return len(p), nil }
 
 var c02Snippets = []string{
+	"{% for kv in mnan %}{{ kv[1] }}{% endfor %}|{{ mnan | join: '' }}",
 	"{{ an.Name }} is {{ an.Age }} [{{ an.Tags | join: ',' }}]", "{% if an.Age > 40 %}{{ an.Name | upcase }}{% endif %}{{ an.Tags.size }}",
 	"{% for kv in m %}{{ kv[0] }}={{ kv[1] }};{% endfor %}",
 	"{% tablerow kv in m cols: 2 %}{{ kv[0] }}{% endtablerow %}",
@@ -170,6 +172,14 @@ func c02Bindings(c *c02Case, variant int) map[string]any {
 		mx[p.k] = p.v
 	}
 	out["mx"], out["f1"] = mx, 1.0
+	// numeric keys of several Go types with a NaN among them (what a YAML document with a .nan key decodes to)
+	mnan := make(map[any]any, variant%3)
+	nanPairs := []kv{{2.5, "a"}, {math.NaN(), "b"}, {2, "c"}, {int8(1), "d"}, {float32(0.5), "e"}}
+	for j := range nanPairs {
+		p := nanPairs[(j*2+variant)%len(nanPairs)]
+		mnan[p.k] = p.v
+	}
+	out["mnan"] = mnan
 	p := 7
 	st := c02Struct{A: 1, P: &p, M: map[string]int{}}
 	for j := range keys {
